@@ -979,3 +979,171 @@ Proof.
     intros Hn. apply (ca_memo_mono _ _ _ Hc5). apply C. exact Hn.
   - rewrite Hr1. reflexivity.
 Qed.
+
+(* ------------------------------------------------------------------------------------------ *)
+(* what one connected block does to one tracker row *)
+
+Lemma find_trk_filter_uuid (D : list (N * N)) l u :
+  find_trk (filter (fun k => negb (mem_uuid (trk_uuid k) D)) l) u = if mem_uuid u D then None else find_trk l u.
+Proof.
+  unfold find_trk. induction l as [|k l IH]; [destruct (mem_uuid u D); reflexivity|]. cbn [filter find].
+  destruct (uuid_eqb (trk_uuid k) u) eqn:E.
+  - apply uuid_eqb_eq in E. rewrite E. destruct (mem_uuid u D) eqn:Em; cbn [negb]; [exact IH|].
+    cbn [find]. rewrite E, uuid_eqb_refl. reflexivity.
+  - destruct (mem_uuid (trk_uuid k) D); cbn [negb]; [exact IH|]. cbn [find]. rewrite E. exact IH.
+Qed.
+
+Lemma mem_uuid_map_filter (p : trk -> bool) l u k :
+  NoDup (map trk_uuid l) -> find_trk l u = Some k -> mem_uuid u (map trk_uuid (filter p l)) = p k.
+Proof.
+  intros Hnd Hf. destruct (find_trk_Some _ _ _ Hf) as [Hk Hu]. destruct (p k) eqn:Ep.
+  - apply mem_uuid_In. rewrite <- Hu. apply in_map. apply filter_In. tauto.
+  - apply mem_uuid_false. intros Hi. apply in_map_iff in Hi. destruct Hi as [k' [He Hk']].
+    apply filter_In in Hk'. destruct Hk' as [Hk' Hp]. assert (k' = k) by (apply (same_uuid_same_row l); auto; congruence).
+    congruence.
+Qed.
+
+Lemma mem_uuid_map_filter_none (p : trk -> bool) l u :
+  find_trk l u = None -> mem_uuid u (map trk_uuid (filter p l)) = false.
+Proof.
+  intros Hf. apply mem_uuid_false. intros Hi. apply (find_trk_None _ _ Hf).
+  apply in_map_iff in Hi. destruct Hi as [k [He Hk]]. apply filter_In in Hk. apply in_map_iff. exists k. tauto.
+Qed.
+
+Lemma mem_uuid_filter (q : N * N -> bool) l u : mem_uuid u (filter q l) = mem_uuid u l && q u.
+Proof.
+  induction l as [|x l IH]; [reflexivity|]. cbn [filter]. destruct (q x) eqn:Eq.
+  - rewrite !mem_uuid_cons, IH. destruct (uuid_eqb u x) eqn:E; [|reflexivity].
+    apply uuid_eqb_eq in E. subst x. rewrite Eq. cbn [orb andb]. reflexivity.
+  - rewrite mem_uuid_cons, IH. destruct (uuid_eqb u x) eqn:E; [|reflexivity].
+    apply uuid_eqb_eq in E. subst x. rewrite Eq, andb_false_r. reflexivity.
+Qed.
+
+Lemma mem_uuid_app u a b : mem_uuid u (a ++ b) = mem_uuid u a || mem_uuid u b.
+Proof. apply existsb_app. Qed.
+
+Definition confirm_one (txids : list N) (h : N) (k : trk) : trk :=
+  if memN (t_penalty k) txids then restamp k h true else k.
+
+Definition fate (txids : list N) (h lim : N) (rg : list (N * N)) (e : N -> cstatus) (k : trk) : option trk :=
+  if memN (t_penalty k) txids then Some (restamp k h true)                 (* confirmed by this block *)
+  else if mem_uuid (trk_uuid k) rg then                                    (* its confirming block was disconnected *)
+    (if trk_rejected e k then None else Some (restamp k h false))
+  else if t_conf k then                                                    (* counting confirmations *)
+    (if N.eqb (h - t_height k) IRR then None else Some k)
+  else if N.leb (t_height k) lim then                                      (* stale: re-broadcast *)
+    (if status_rejected (e (t_penalty k)) then None else Some (stale_upd e h k))
+  else Some k.
+
+Section Pipeline.
+  Context (txids : list N) (h lim : N) (rg0 : list (N * N)) (e : N -> cstatus) (l : list trk).
+  Context (Hnd : NoDup (map trk_uuid l)) (Hlim : lim < h)
+          (Hnu : existsb (underflows txids h rg0) l = false).
+
+  Let completed := map trk_uuid (filter (completes txids h rg0) l).
+  Let lA := confirm_rows txids h l.
+  Let lB := filter (fun k => negb (mem_uuid (trk_uuid k) completed)) lA.
+  Let rg := filter (fun u => negb (mem_uuid u (conf_uuids txids l))) rg0.
+  Let lC := reorg_rows e h rg lB.
+  Let stale := map trk_uuid (filter (stale_sel lim) lC).
+  Let lD := stale_rows e h stale lC.
+  Let rej1 := filter (reorg_rejected e lB) rg.
+  Let rej2 := filter (stale_rejected e lC) stale.
+  Let lE := filter (fun k => negb (mem_uuid (trk_uuid k) (rej1 ++ rej2))) lD.
+
+  Lemma pl_ndA : NoDup (map trk_uuid lA).
+  Proof.
+    unfold lA, confirm_rows. rewrite map_map. erewrite map_ext; [exact Hnd|].
+    intros k. destruct (memN _ _); reflexivity.
+  Qed.
+  Lemma pl_ndB : NoDup (map trk_uuid lB).
+  Proof. unfold lB. apply NoDup_map_filter. exact pl_ndA. Qed.
+  Lemma pl_ndC : NoDup (map trk_uuid lC).
+  Proof.
+    unfold lC, reorg_rows. rewrite map_map. erewrite map_ext; [exact pl_ndB|].
+    intros k. destruct (_ && _); reflexivity.
+  Qed.
+
+  Lemma pl_findA u : find_trk lA u = option_map (confirm_one txids h) (find_trk l u).
+  Proof. unfold lA, confirm_rows. apply find_trk_map. intros k. destruct (memN _ _); reflexivity. Qed.
+
+  Lemma pl_findC u :
+    find_trk lC u = option_map (fun k => if mem_uuid (trk_uuid k) rg && negb (trk_rejected e k)
+                                         then restamp k h false else k) (find_trk lB u).
+  Proof. unfold lC, reorg_rows. apply find_trk_map. intros k. destruct (_ && _); reflexivity. Qed.
+
+  Lemma pl_findD u :
+    find_trk lD u = option_map (fun k => if mem_uuid (trk_uuid k) stale then stale_upd e h k else k) (find_trk lC u).
+  Proof.
+    unfold lD, stale_rows. apply find_trk_map. intros k. destruct (mem_uuid _ _); [apply stale_upd_fields|reflexivity].
+  Qed.
+
+  Lemma pipeline_none u : find_trk l u = None -> find_trk lE u = None.
+  Proof.
+    intros Hf. unfold lE. rewrite find_trk_filter_uuid. destruct (mem_uuid u (rej1 ++ rej2)); [reflexivity|].
+    rewrite pl_findD, pl_findC. unfold lB. rewrite find_trk_filter_uuid.
+    destruct (mem_uuid u completed); [reflexivity|]. rewrite pl_findA, Hf. reflexivity.
+  Qed.
+
+  Lemma pipeline_row u k : find_trk l u = Some k -> find_trk lE u = fate txids h lim rg0 e k.
+  Proof.
+    intros Hf. destruct (find_trk_Some _ _ _ Hf) as [Hk Hu].
+    assert (HmC : mem_uuid u completed = completes txids h rg0 k) by (apply mem_uuid_map_filter; assumption).
+    assert (HmF : mem_uuid u (conf_uuids txids l) = memN (t_penalty k) txids)
+      by (unfold conf_uuids; rewrite (mem_uuid_map_filter _ _ _ k Hnd Hf); reflexivity).
+    assert (Hrg : mem_uuid u rg = mem_uuid u rg0 && negb (memN (t_penalty k) txids))
+      by (unfold rg; rewrite mem_uuid_filter, HmF; reflexivity).
+    assert (HfB : find_trk lB u = if completes txids h rg0 k then None else Some (confirm_one txids h k)).
+    { unfold lB. rewrite find_trk_filter_uuid, HmC, pl_findA, Hf. reflexivity. }
+    assert (Hr1 : mem_uuid u rej1 = mem_uuid u rg && reorg_rejected e lB u)
+      by (unfold rej1; apply mem_uuid_filter).
+    assert (Hr2 : mem_uuid u rej2 = mem_uuid u stale && stale_rejected e lC u)
+      by (unfold rej2; apply mem_uuid_filter).
+    assert (HfE : find_trk lE u = if mem_uuid u rej1 || mem_uuid u rej2 then None else find_trk lD u)
+      by (unfold lE; rewrite find_trk_filter_uuid, mem_uuid_app; reflexivity).
+    assert (Hnuk : underflows txids h rg0 k = false).
+    { destruct (underflows txids h rg0 k) eqn:E; [|reflexivity].
+      assert (existsb (underflows txids h rg0) l = true) by (apply existsb_exists; eauto). congruence. }
+    rewrite HfE, Hr1, Hr2, pl_findD. unfold fate. unfold completes in HfB. unfold underflows in Hnuk. rewrite Hu in *.
+    destruct (memN (t_penalty k) txids) eqn:Em; cbn [negb andb] in *.
+    - (* confirmed by this block *)
+      rewrite andb_false_r in Hrg. unfold confirm_one in HfB. rewrite Em in HfB.
+      assert (HfC : find_trk lC u = Some (restamp k h true)).
+      { rewrite pl_findC, HfB. cbn [option_map]. rewrite restamp_uuid, Hu, Hrg. reflexivity. }
+      assert (Hst : mem_uuid u stale = false).
+      { unfold stale. rewrite (mem_uuid_map_filter _ _ _ _ pl_ndC HfC). reflexivity. }
+      rewrite Hrg, Hst, HfC. cbn [andb orb option_map]. rewrite restamp_uuid, Hu, Hst. reflexivity.
+    - rewrite andb_true_r in Hrg. unfold confirm_one in HfB. rewrite Em in HfB.
+      destruct (mem_uuid u rg0) eqn:Erg; cbn [negb andb] in *.
+      + (* reorged *)
+        assert (Hrr : reorg_rejected e lB u = trk_rejected e k) by (unfold reorg_rejected; rewrite HfB; reflexivity).
+        rewrite Hrg, Hrr. cbn [andb]. destruct (trk_rejected e k) eqn:Erj; [reflexivity|].
+        assert (HfC : find_trk lC u = Some (restamp k h false)).
+        { rewrite pl_findC, HfB. cbn [option_map]. rewrite Hu, Hrg, Erj. reflexivity. }
+        assert (Hst : mem_uuid u stale = false).
+        { unfold stale. rewrite (mem_uuid_map_filter _ _ _ _ pl_ndC HfC). unfold stale_sel. cbn [t_conf t_height restamp negb andb].
+          apply N.leb_gt. exact Hlim. }
+        rewrite Hst, HfC. cbn [andb orb option_map]. rewrite restamp_uuid, Hu, Hst. reflexivity.
+      + destruct (t_conf k) eqn:Ec; cbn [andb] in *.
+        * (* counting confirmations *)
+          apply N.ltb_ge in Hnuk. apply N.leb_le in Hnuk. rewrite Hnuk in HfB. cbn [andb] in HfB.
+          destruct (N.eqb (h - t_height k) IRR) eqn:Ei.
+          { assert (HfC : find_trk lC u = None) by (rewrite pl_findC, HfB; reflexivity).
+            rewrite HfC. cbn [option_map]. match goal with |- (if ?c then _ else _) = _ => destruct c end; reflexivity. }
+          assert (HfC : find_trk lC u = Some k).
+          { rewrite pl_findC, HfB. cbn [option_map]. rewrite Hu, Hrg. reflexivity. }
+          assert (Hst : mem_uuid u stale = false).
+          { unfold stale. rewrite (mem_uuid_map_filter _ _ _ _ pl_ndC HfC). unfold stale_sel. rewrite Ec. reflexivity. }
+          rewrite Hrg, Hst, HfC. cbn [andb orb option_map]. rewrite Hu, Hst. reflexivity.
+        * (* unconfirmed *)
+          assert (HfC : find_trk lC u = Some k).
+          { rewrite pl_findC, HfB. cbn [option_map]. rewrite Hu, Hrg. reflexivity. }
+          assert (Hst : mem_uuid u stale = N.leb (t_height k) lim).
+          { unfold stale. rewrite (mem_uuid_map_filter _ _ _ _ pl_ndC HfC). unfold stale_sel. rewrite Ec. reflexivity. }
+          assert (Hsr : stale_rejected e lC u = status_rejected (e (t_penalty k)))
+            by (unfold stale_rejected; rewrite HfC; reflexivity).
+          rewrite Hrg, Hst, HfC, Hsr. cbn [andb orb option_map]. rewrite Hu, Hst.
+          destruct (N.leb (t_height k) lim); cbn [andb]; [|reflexivity].
+          destruct (status_rejected (e (t_penalty k))); reflexivity.
+  Qed.
+End Pipeline.
